@@ -174,6 +174,36 @@ func (c *vhChunked) Read(p []byte) (int, error) {
 	return c.r.Read(p)
 }
 
+// H02.pages-dmg: the single-slot mode used for disk images (page size 0: one
+// digest over the whole image up to the trailer). hashPages in that mode
+// yields the digest of the whole stream for every read split; VerifyPages
+// accepts exactly that stream, and rejects one changed byte (symbolic
+// position and value), a missing or an extra byte, and a directory with any
+// other number of slots.
+func VH_C02_CodePagesSingleSlot() {
+	n := vhConcretize(vhInt("image-bytes", 1, 6), 7)
+	code := vhBytes("image", n)
+	chunk := vhConcretize(vhInt("read-size", 1, 3), 4)
+	slots, count, limit, err := hashPages([]crypto.Hash{crypto.SHA256}, &vhChunked{r: bytes.NewReader(code), n: chunk}, true)
+	whole := sha256.Sum256(code)
+	vhAssert(err == nil && count == 1 && limit == int64(n) && bytes.Equal(slots[0], whole[:]), "one-slot-over-the-whole-image")
+	dir := &CodeDirectory{HashFunc: crypto.SHA256, CodeHashes: [][]byte{whole[:]}}
+	dir.Header.CodeLimit = uint32(n)
+	dir.Header.HashType = HashSHA256
+	sb := &SigBlob{Directories: []*CodeDirectory{dir}}
+	vhAssert(sb.VerifyPages(bytes.NewReader(code)) == nil, "signed-image-verifies")
+	tampered := append([]byte{}, code...)
+	pos := vhConcretize(vhInt("changed-byte", 0, n-1), 8)
+	tampered[pos] = vhU8("new-value")
+	vhAssume(tampered[pos] != code[pos])
+	vhAssert(sb.VerifyPages(bytes.NewReader(tampered)) != nil, "changed-image-byte-rejected")
+	vhAssert(sb.VerifyPages(bytes.NewReader(code[:n-1])) != nil, "truncated-image-rejected")
+	vhAssert(sb.VerifyPages(bytes.NewReader(append(append([]byte{}, code...), 0))) != nil, "grown-image-rejected")
+	two := &SigBlob{Directories: []*CodeDirectory{{HashFunc: crypto.SHA256, CodeHashes: [][]byte{whole[:], whole[:]}, Header: dir.Header}}}
+	vhAssert(two.VerifyPages(bytes.NewReader(code)) != nil, "second-slot-rejected")
+	vhReach("verified") // vh:require verified
+}
+
 func VH_C09_CodePagesIndependentOfReads() { VH_C02_CodePagesSignedAndVerified() }
 func VH_C01_CodePagesVerify()             { VH_C02_CodePagesSignedAndVerified() }
 
